@@ -482,7 +482,24 @@ static std::string g_table_path;   // --table=<file>: per layout-combination out
 
 static std::string one_line(std::string s, std::size_t cap = 900) { for(auto& ch : s) { if(ch == '\t' || ch == '\n' || ch == '\r') { ch = ' '; } } if(s.size() > cap) { s.resize(cap); } return s; }
 
-static void account(Cfg const& c, Res const& r, std::string const& stderr_digest) {
+// Non-vacuity of "rejected": the layouts the property names as supported must be ACCEPTED for every size >= 1 — owning arrays and row-major
+// blocks (contiguous or padded) with owning / unit-stride vectors for every routine (these are the repository's own call forms), and in addition
+// column-major (rotated) blocks for potrf, whose adaptor has a branch for them.  A rejection there is a violation, not an admissible outcome.
+static bool must_accept(Cfg const& c) {
+	auto rowmajor = [](int l) { return l == L_ARRAY || l == L_ROWC || l == L_ROWP; };
+	auto unitvec = [](int l) { return l == V_ARRAY || l == V_UNIT; };
+	if(c.m < 1 || c.n < 1) { return false; }
+	switch(c.op) {
+		case OP_POTRF: return rowmajor(c.la) || c.la == L_COLC || c.la == L_COLP;
+		case OP_GEQRF: case OP_SYEV: return rowmajor(c.la) && unitvec(c.ls);
+		case OP_GESVD4: return rowmajor(c.la) && rowmajor(c.lu) && rowmajor(c.lv) && unitvec(c.ls);
+		default: return true;
+	}
+}
+
+static void account(Cfg const& c, Res const& r0, std::string const& stderr_digest) {
+	Res r = r0;
+	if(r.st == 'R' && must_accept(c)) { r.st = 'V'; r.detail = "a supported layout was rejected by " + r.sym + ": " + r.detail; r.sym = "rejected-supported-layout"; }
 	++g_eval; if(c.m >= 1 && c.n >= 1) { ++g_nontrivial; }
 	mc::R.add(std::string("evaluations_") + op_tok[c.op]);
 	auto& row = g_table[std::string(op_tok[c.op]) + " " + layouts_of(c)];
@@ -511,7 +528,7 @@ static Res classify_abnormal(bool by_sigabrt, std::string const& cause, std::str
 	if(by_sigabrt && cls == "assertion") {
 		std::istringstream is(se); std::string line;
 		while(std::getline(is, line)) { if(line.find("Assertion") != std::string::npos) { break; } }
-		if(line.find("include/boost/multi") != std::string::npos) { Res r; r.st = 'R'; r.sym = "assertion"; r.detail = one_line(line, 300); return r; }
+		if(line.find("boost/multi/") != std::string::npos || line.find("include/multi/") != std::string::npos) { Res r; r.st = 'R'; r.sym = "assertion"; r.detail = one_line(line, 300); return r; }
 		return viol("crash:foreign-assertion", cause + ": " + digest);
 	}
 	return viol("crash:" + (cls == "assertion" ? std::string("assertion-other") : cls), cause + ": " + digest);
